@@ -1423,6 +1423,10 @@ class Engine(object):
             if impl is not None and depth < self.max_depth and impl.path not in st.stack:
                 return self.run_body(st, impl, list(args), depth + 1, site)
         self.unmodelled[name] = self.unmodelled.get(name, 0) + 1
+        if t is not None and (t.get("resolved_dp") or t.get("callee_dp")) in self.facts.skipped_dp:
+            # a workspace function whose body was not exported (macro-generated) and that no primitive stands for: whatever it
+            # does is invisible - fail closed
+            self.blind.add((name, "@" + (site[2] if site and len(site) > 2 else "?")))
         return self.prims.opaque_call(self, st, name, args, site, t)
 
 
